@@ -1,6 +1,7 @@
 import MythVerif.Proofs.WsQueueTsoTac
-/-! Preservation lemmas of the TSO invariant (drain of a shift entry: the slots of the live window
-    move in memory and the logical window moves with them). -/
+/-! A buffered shift entry is the `memmove` of the logical window (used by the per-pc lemmas for the
+    drain of a shift entry: the slots of the live window move in memory and the logical window moves
+    with them). -/
 namespace MythVerif.WsqTso
 open MythVerif.Wsq
 
@@ -9,22 +10,6 @@ theorem shift_head (s : St) (h : Inv s) (lo hi off : Int) (rest : List Sto) (hb 
     lo = s.lb ∧ hi = s.lt ∧ off = s.sh ∧ resetting s.opc = true := by
   cases hpc : s.opc
   all_goals (cases h; simp only [hpc, ownerLocked, carry, resetting, ownerFlight] at *)
-  all_goals grind [CarryShape, Pu2Shape, PofShape, Po6Shape, Po8Shape, Po9Shape, InsShape, Rc1Shape, Rc2Shape, RcPre, RcShape]
-
-set_option maxHeartbeats 4000000 in
-theorem f_O_shift (s s' : St) (lo hi off : Int) (rest : List Sto) : Inv s → s.bufO = .shift lo hi off :: rest →
-    s' = applySto { s with bufO := rest } (.shift lo hi off) → Inv s' := by
-  intro h hb hs
-  subst hs
-  obtain ⟨rfl, rfl, rfl, hres⟩ := shift_head s h lo hi off rest hb
-  have hmw := mwin_shift s.A s.ptr s.lb s.lt s.sh h.len (fun k hk => h.mwin k hk (Or.inr hres))
-  simp only [applySto]
-  cases hpc : s.opc
-  all_goals (cases h; simp only [hpc, ownerLocked, carry, resetting, ownerFlight] at *)
-  all_goals (
-    constructor
-    all_goals (try simp only [ownerLocked, carry, resetting, ownerFlight, upd_apply, applySto])
-    case mwin => first | (intro k hk _; exact hmw k hk) | skip
-    tso_rest)
+  all_goals tso_absurd
 
 end MythVerif.WsqTso
